@@ -112,6 +112,83 @@ fixcheck!(ck_be_i64, BeI64, i64, false);
 fixcheck!(ck_be_u128, BeU128, u128, false);
 fixcheck!(ck_be_i128, BeI128, i128, false);
 
+/// fixed-width fields next to a long borrowed string, through every transport
+#[derive(Serialize, Deserialize, PartialEq, Debug)]
+struct FixMixed<'a> {
+    #[serde(with = "postcard::fixint::le")]
+    a: u16,
+    #[serde(with = "postcard::fixint::be")]
+    b: i32,
+    name: &'a str,
+    #[serde(with = "postcard::fixint::be")]
+    c: u128,
+    #[serde(with = "postcard::fixint::le")]
+    d: i64,
+    tail: u8,
+}
+
+fn c13_transports(t: &mut Tctx, u: u128, name_len: usize) {
+    use super::io::{Endpoint, EioEnd, Fault, Sched, StdEnd};
+    let name: String = (0..name_len).map(|i| (b'a' + (i % 26) as u8) as char).collect();
+    let v = FixMixed { a: u as u16, b: (u >> 16) as i32, name: &name, c: u, d: (u >> 7) as i64, tail: 0x5A };
+    let mut want: Vec<u8> = Vec::new();
+    want.extend_from_slice(&v.a.to_le_bytes());
+    want.extend_from_slice(&v.b.to_be_bytes());
+    spec::varint(name.len() as u128, &mut want);
+    want.extend_from_slice(name.as_bytes());
+    want.extend_from_slice(&v.c.to_be_bytes());
+    want.extend_from_slice(&v.d.to_le_bytes());
+    want.push(0x5A);
+    t.st.evaluations += 1;
+    t.st.count("transport_cases");
+    let rp = || vec![kv("kind", "c13"), kv("type", "FixMixed"), kv("x", u.to_string()), kv("pre", name_len.to_string()), kv("post", "0")];
+    let sched = if name_len % 2 == 0 { Sched::OneByte } else { Sched::Short(u as u64 | 1) };
+    let encs: Vec<(&str, Result<postcard::Result<Vec<u8>>, String>)> = vec![
+        ("to_allocvec", catch(|| postcard::to_allocvec(&v))),
+        ("to_vec", catch(|| postcard::to_vec::<_, 512>(&v).map(|x| x.to_vec()))),
+        ("to_slice_exact", catch(|| {
+            let mut b = vec![0u8; want.len()];
+            postcard::to_slice(&v, &mut b).map(|s| s.to_vec())
+        })),
+        ("to_extend", catch(|| postcard::to_extend(&v, Vec::new()))),
+        ("to_io", catch(|| postcard::to_io(&v, StdEnd(Endpoint::writer(sched, Fault::None))).map(|w| w.0.data))),
+        ("to_io_vec", catch(|| postcard::to_io(&v, Vec::new()))),
+        ("to_eio", catch(|| postcard::to_eio(&v, EioEnd(Endpoint::writer(sched, Fault::None))).map(|w| w.0.data))),
+    ];
+    for (name_e, r) in encs {
+        match r {
+            Ok(Ok(b)) if b == want => {}
+            other => {
+                t.st.violation(
+                    &format!("C13:transport-bytes-differ:{}", name_e),
+                    format!("{} of a struct with fixed-width fields and a {}-byte string gave {:?}, expected {}", name_e, name_len, other.map(|r| r.map(|b| hexs(&b)).map_err(|e| err_label(&e))), hexs(&want)),
+                    rp(),
+                );
+                return;
+            }
+        }
+    }
+    // decode through the slice and reader paths; scratch exactly the string length (fixints need none)
+    let ok_slice = matches!(catch(|| postcard::from_bytes::<FixMixed>(&want)), Ok(Ok(back)) if back == v);
+    let mut scratch = vec![0u8; name.len()];
+    let ok_io = matches!(
+        catch(|| postcard::from_io::<FixMixed, _>((StdEnd(Endpoint::reader(&want, sched, Fault::None)), &mut scratch[..])).map(|(x, _)| x == v)),
+        Ok(Ok(true))
+    );
+    let mut scratch2 = vec![0u8; name.len()];
+    let ok_eio = matches!(
+        catch(|| postcard::from_eio::<FixMixed, _>((EioEnd(Endpoint::reader(&want, sched, Fault::None)), &mut scratch2[..])).map(|(x, _)| x == v)),
+        Ok(Ok(true))
+    );
+    if !(ok_slice && ok_io && ok_eio) {
+        t.st.violation(
+            "C13:transport-decode-differs",
+            format!("decoding a struct with fixed-width fields failed or differed (slice {}, from_io {}, from_eio {}; scratch = string length {})", ok_slice, ok_io, ok_eio, name.len()),
+            rp(),
+        );
+    }
+}
+
 fn c13_all_widths(t: &mut Tctx, u: u128, pre: u16, post: i32) {
     ck_le_u16(t, u as u16, pre, post);
     ck_be_u16(t, u as u16, pre, post);
@@ -194,6 +271,11 @@ pub fn run_c13(cfg: &Cfg) -> Report {
             t.st.nontrivial(fp_mix(fp(&u.to_le_bytes()), pre as u64 ^ ((post as u32 as u64) << 16)));
         }
         t.st.add("random_cases", n * 16);
+        // every transport, with strings of 0..64 bytes after the fixed-width fields
+        for k in 0..t.cfg.scale(5, 400, 8000) {
+            let u = t.rng.u128();
+            c13_transports(t, u, [0usize, 1, 5, 15, 16, 17, 31, 32, 33, 55, 64][(k % 11) as usize]);
+        }
         // bare adapters (no neighbouring fields)
         for _ in 0..t.cfg.scale(10, 2000, 50_000) {
             let u = t.rng.u128();
@@ -252,6 +334,7 @@ pub fn run_c13(cfg: &Cfg) -> Report {
     rep.floor("exhaustive_16bit_cases", 200_000);
     rep.floor("single_byte_pattern_cases", 4000);
     rep.floor("random_cases", 1000);
+    rep.floor("transport_cases", 50);
     rep
 }
 
